@@ -1091,6 +1091,8 @@ INVALID_BUT_PARSABLE = [
     ("int-location-not-flat", "@fragment fn fs_main(@location(0) i: i32) { }\n"),
 ]
 VALID_ODD = [
+    ("workgroup-size-override", "override wx: u32 = 16u;\noverride wy: u32;\n@compute @workgroup_size(wx, wy) fn cs() { }\n"),
+    ("workgroup-size-override-only", "override n: u32 = 8u;\n@group(0) @binding(0) var<storage, read_write> b: array<u32, 4>;\n@compute @workgroup_size(n) fn cs() { b[0] = n; }\n"),
     ("pointer-only", "@group(0) @binding(0) var<uniform> a: vec4<f32>;\n@group(0) @binding(1) var<storage, read_write> b: array<u32, 4>;\n@fragment fn fs_main() -> @location(0) vec4<f32> { let p = &a; let q = &b[1]; return vec4<f32>(); }\n"),
     ("uncalled-helper", "@group(0) @binding(0) var<uniform> a: vec4<f32>;\nfn never() -> vec4<f32> { return a; }\n@fragment fn fs_main() -> @location(0) vec4<f32> { return vec4<f32>(); }\n"),
     ("after-return", "@group(0) @binding(0) var<storage, read_write> b: array<u32, 4>;\nfn h() { return; }\n@compute @workgroup_size(1) fn cs() { h(); if (false) { b[0] = 1u; } }\n"),
